@@ -134,7 +134,7 @@ def scenario(draw) -> Dict[str, Any]:
         ops = [o for o in ops if not (o['op'] == 'close_host' and o['t'] < t_reg + 20000)]
         t_un = t_reg + draw(st.integers(1600, 4000))
         ops.append({'t': t_un, 'op': 'unregister', 'svc': k, 'what': 'port'})
-        ops.append({'t': t_un + draw(st.integers(1600, 4000)), 'op': 'reregister', 'svc': k, 'what': 'port'})
+        ops.append({'t': t_un + draw(st.integers(1600, 4000)), 'op': 'reregister', 'svc': k, 'what': 'port', 'reuse': draw(st.booleans())})
         hb = draw(st.integers(0, n_hosts - 1))
         joins[hb] = 'start'
         browsers = [{'host': hb, 'types': [services[k]['type']], 'at': max(0, t_reg - draw(st.integers(0, 2000))), 'qtype': None}] + browsers[:3]
@@ -267,7 +267,9 @@ class Run:
                                                for i, s in enumerate(case['services'])}
         registering: Set[int] = set()
         not_awaited: Dict[int, Any] = {}
+        retired: Dict[int, Any] = {}
         self.hasty = False
+        self.reused_object = False
         browsers: Dict[int, Any] = {}
         last_op_on_svc: Dict[int, float] = {}
 
@@ -305,8 +307,17 @@ class Run:
                 if kind == 'register' or (kind == 'reregister' and k not in infos):
                     if k in infos:
                         continue
-                    d = desc_of(s, versions[k])
-                    info = sim.make_service_info(d)
+                    if kind == 'reregister' and op.get('reuse') and k in retired and not case.get('shared'):
+                        # the application keeps its ServiceInfo object: after the unregister it changes the port on it and
+                        # registers the same object again
+                        versions[k]['port'] += 100
+                        d = desc_of(s, versions[k])
+                        info = retired.pop(k)
+                        info.port = d['port']
+                        self.reused_object = True
+                    else:
+                        d = desc_of(s, versions[k])
+                        info = sim.make_service_info(d)
                     registering.add(k)
                     if s.get('ttl_arg'):
                         task = await h.azc.async_register_service(info, ttl=s['ttl_arg'])
@@ -349,6 +360,7 @@ class Run:
                     if k not in infos:
                         continue
                     info = infos.pop(k)
+                    retired[k] = info
                     self.state_log[k].append((w.clock.t, None))
                     ptr = info.dns_pointer()      # classification only: was an answer for this instance waiting to be multicast?
                     if any(ptr in g.answers for q in (h.zc.out_queue, h.zc.out_delay_queue) for g in q.queue):
@@ -600,6 +612,28 @@ def judge(case: Dict[str, Any], run: Run, label: str) -> None:
                                      expired_unpurged_pointer_at_start=getattr(run, 'late_in_purge_window', False),
                                      callbacks=[(x['kind'], x['name'], rel(x['t'])) for x in run.late_browser_events if x['type'] == t][-8:]),
                                 tag='late-browser:' + ('missing' if want - got else 'stale'))
+    # what a host multicasts about the port of one of its registered instances is what is registered at that moment (queued answers
+    # are purged on update; a service registered again is announced with its present data)
+    for seq in sorted(run.trace_by_seq):
+        e = run.trace_by_seq[seq]
+        m = sim.decode_trace_entry(e)
+        if m is None or not m['flags'] & 0x8000:
+            continue
+        for r in m['an'] + m['ar']:
+            if r['type'] != 33 or r['ttl'] == 0:
+                continue
+            nm = wire.name_text(r['name']).lower()
+            k = next((i for i, s in enumerate(case['services']) if f"{s['label']}.{TYPES[s['type']]}".lower() == nm), None)
+            if k is None or e['host'] != 'H%d' % case['services'][k]['host']:
+                continue
+            cur = None
+            for t, d in run.state_log.get(k, []):
+                if t <= e['t']:
+                    cur = d
+            if cur is not None and r['rd']['port'] != cur['port']:
+                raise Violation('a host multicast an SRV record of one of its registered instances with a port other than the registered one',
+                                dict(det, instance=nm, sent_port=r['rd']['port'], registered_port=cur['port'], t=rel(e['t'])),
+                                tag='announced-other-port')
     # lookups from inside Added callbacks
     for lk in run.lookups:
         if not lk['done']:
@@ -716,6 +750,8 @@ def check(case: Dict[str, Any]) -> Dict[str, Any]:
         classes.append('dropped-multicast')
     if base.in_flight_browser_start:
         classes.append('browser-started-during-registration')
+    if getattr(base, 'reused_object', False):
+        classes.append('same-ServiceInfo-object-registered-again-after-an-in-place-change')
     if getattr(base, 'hasty', False):
         classes.append('withdrawn-while-its-registration-announcements-were-going-out (ttl= argument)')
     if case.get('shared'):
